@@ -270,26 +270,64 @@ func verifC03Sess(f []string) string {
 	if err != nil {
 		return "bad-op"
 	}
-	var file interface {
+	type verifC03File interface {
 		io.Reader
 		io.Seeker
 	}
-	fileOpen := false
+	var handles []verifC03File
+	manifest := ""
 	if f[5] != "-" {
 		var locs []string
 		for _, b := range stub.blocks {
 			locs = append(locs, b.loc)
 		}
-		mt := ". " + strings.Join(locs, " ")
-		for _, t := range strings.Split(f[5], ",") {
-			mt += " " + t + ":f"
+		if strings.Contains(f[5], "=") {
+			// streams: dir=b.b.b=off:len:name,...;...
+			for _, st := range strings.Split(f[5], ";") {
+				p3 := strings.Split(st, "=")
+				if len(p3) != 3 {
+					return "bad-op"
+				}
+				line := p3[0]
+				for _, bi := range strings.Split(p3[1], ".") {
+					i, err := strconv.Atoi(bi)
+					if err != nil || i >= len(locs) {
+						return "bad-op"
+					}
+					line += " " + locs[i]
+				}
+				for _, t := range strings.Split(p3[2], ",") {
+					line += " " + t
+				}
+				manifest += line + "\n"
+			}
+		} else {
+			manifest = ". " + strings.Join(locs, " ")
+			for _, t := range strings.Split(f[5], ",") {
+				manifest += " " + t + ":f"
+			}
+			manifest += "\n"
+			fh, err := kc.CollectionFileReader(map[string]interface{}{"manifest_text": manifest}, "f")
+			if err == nil {
+				handles = append(handles, fh)
+			} else {
+				handles = append(handles, nil)
+			}
 		}
-		mt += "\n"
-		fh, err := kc.CollectionFileReader(map[string]interface{}{"manifest_text": mt}, "f")
-		if err == nil {
-			file = fh
-			fileOpen = true
+	}
+	// handle index and argument of r/k ops: "r<len>" (handle 0) or "r<h>:<len>"
+	handleArg := func(a string) (int, int, bool) {
+		h := 0
+		if i := strings.Index(a, ":"); i >= 0 {
+			var err error
+			h, err = strconv.Atoi(a[:i])
+			if err != nil {
+				return 0, 0, false
+			}
+			a = a[i+1:]
 		}
+		v, err := strconv.Atoi(a)
+		return h, v, err == nil
 	}
 	var out []string
 	nreq := func() int {
@@ -379,32 +417,48 @@ func verifC03Sess(f []string) string {
 				kc.BlockCache.Sweep()
 				out = append(out, fmt.Sprintf("r:%d:%x:%s", n, p[:n], verifC03Class(err)))
 			case 'r':
-				ln, err := strconv.Atoi(op[1:])
-				if err != nil {
+				h, ln, ok := handleArg(op[1:])
+				if !ok {
 					return "bad-op"
 				}
-				if !fileOpen {
+				if h >= len(handles) || handles[h] == nil {
 					out = append(out, "f:noopen")
 					continue
 				}
 				p := make([]byte, ln)
-				n, err := file.Read(p)
+				n, err := handles[h].Read(p)
 				kc.BlockCache.Sweep()
 				out = append(out, fmt.Sprintf("f:%x:%s", p[:n], verifC03Class(err)))
 			case 'k':
-				off, err := strconv.Atoi(op[1:])
-				if err != nil {
+				h, off, ok := handleArg(op[1:])
+				if !ok {
 					return "bad-op"
 				}
-				if !fileOpen {
+				if h >= len(handles) || handles[h] == nil {
 					out = append(out, "k:noopen")
 					continue
 				}
-				pos, err := file.Seek(int64(off), io.SeekStart)
+				pos, err := handles[h].Seek(int64(off), io.SeekStart)
 				if err != nil {
 					out = append(out, "k:"+verifC03Class(err))
 				} else {
 					out = append(out, fmt.Sprintf("k:%d", pos))
+				}
+			case 'o':
+				if len(op) < 2 {
+					return "bad-op"
+				}
+				fh, err := kc.CollectionFileReader(map[string]interface{}{"manifest_text": manifest}, op[1:])
+				switch {
+				case err == nil:
+					handles = append(handles, fh)
+					out = append(out, "o:ok")
+				case os.IsNotExist(err):
+					handles = append(handles, nil)
+					out = append(out, "o:noent")
+				default:
+					handles = append(handles, nil)
+					out = append(out, "o:noopen")
 				}
 			default:
 				return "bad-op"
